@@ -462,3 +462,171 @@ func bin(m *model.Packet, b []byte) []byte {
 	}
 	return append([]byte{}, b...)
 }
+
+// ---- values handed from one packet to another ------------------------------
+
+type bytesField struct {
+	name string
+	get  func() []byte
+	set  func([]byte)
+}
+
+func bytesFields(p mq.ControlPacket) []bytesField {
+	var out []bytesField
+	if v, ok := p.(interface {
+		Password() []byte
+		SetPassword([]byte)
+	}); ok {
+		out = append(out, bytesField{"Password", v.Password, v.SetPassword})
+	}
+	if v, ok := p.(interface {
+		AuthData() []byte
+		SetAuthData([]byte)
+	}); ok {
+		out = append(out, bytesField{"AuthData", v.AuthData, v.SetAuthData})
+	}
+	if v, ok := p.(interface {
+		CorrelationData() []byte
+		SetCorrelationData([]byte)
+	}); ok {
+		out = append(out, bytesField{"CorrelationData", v.CorrelationData, v.SetCorrelationData})
+	}
+	if v, ok := p.(interface {
+		Payload() []byte
+		SetPayload([]byte)
+	}); ok {
+		out = append(out, bytesField{"Payload", v.Payload, v.SetPayload})
+	}
+	return out
+}
+
+// Transfer hands a value returned by an accessor of src to the matching
+// setter of dst, the way a program forwards or republishes what it received:
+// the filter list of a SUBSCRIBE to another SUBSCRIBE, or a binary field
+// (password, authentication data, correlation data, payload) to a binary
+// field of dst. It reports what it did ("" = nothing applicable). Nothing
+// here writes to memory obtained from an accessor.
+func Transfer(src, dst mq.ControlPacket, pick int) string {
+	if pick < 0 {
+		pick = -pick
+	}
+	ss, sok := src.(*mq.Subscribe)
+	ds, dok := dst.(*mq.Subscribe)
+	if sok && dok && len(ss.Filters()) > 0 {
+		ds.AddFilters(ss.Filters()...)
+		return "Filters"
+	}
+	var from []bytesField
+	for _, f := range bytesFields(src) {
+		if len(f.get()) > 0 {
+			from = append(from, f)
+		}
+	}
+	to := bytesFields(dst)
+	if len(from) == 0 || len(to) == 0 {
+		return ""
+	}
+	f, t := from[pick%len(from)], to[(pick/7)%len(to)]
+	t.set(f.get())
+	return f.name + "->" + t.name
+}
+
+// Filter names used by FollowUp.
+const (
+	FollowOwnFilter   = "fwd/own/#"
+	FollowLaterFilter = "src/later/+"
+)
+
+// FollowUp continues after Transfer(src, dst, pick) == what: dst is given
+// another value of its own (one more filter, or a replacement for the binary
+// field), and for filter lists src gets one more filter as well.
+func FollowUp(src, dst mq.ControlPacket, what string, pick int) {
+	if pick < 0 {
+		pick = -pick
+	}
+	if what == "Filters" {
+		ds := dst.(*mq.Subscribe)
+		ds.AddFilters(mq.NewTopicFilter(FollowOwnFilter, mq.OptQoS2))
+		if ss := src.(*mq.Subscribe); ss != ds {
+			ss.AddFilters(mq.NewTopicFilter(FollowLaterFilter, mq.OptNL))
+		}
+		return
+	}
+	to := bytesFields(dst)
+	if len(to) == 0 {
+		return
+	}
+	t := to[(pick/7)%len(to)]
+	if pick%2 == 0 {
+		t.set([]byte("rotated-value"))
+	} else {
+		t.set(nil)
+	}
+}
+
+// ---- calls with values outside MQTT's ranges -------------------------------
+
+// WildNames are setter calls whose Go parameter type is wider than the MQTT
+// range of the field: a program can make them, so the resulting packet value
+// is one "a program can hold" (C19), although it is outside the C01 domain.
+var WildNames = []string{"SetSubscriptionID", "AddSubscriptionID", "SetQoS", "WillQoS", "SetMaxQoS", "SetProtocolVersion", "PubQoS"}
+
+// Wild makes the named call with v on p if p has it; it reports whether it did.
+func Wild(p mq.ControlPacket, name string, v int64) bool {
+	switch name {
+	case "SetSubscriptionID":
+		if q, ok := p.(*mq.Subscribe); ok {
+			q.SetSubscriptionID(int(v))
+			return true
+		}
+	case "AddSubscriptionID":
+		if q, ok := p.(*mq.Publish); ok {
+			q.AddSubscriptionID(uint32(v))
+			return true
+		}
+	case "SetQoS":
+		if q, ok := p.(*mq.Publish); ok {
+			q.SetQoS(uint8(v))
+			return true
+		}
+	case "WillQoS":
+		if q, ok := p.(*mq.Connect); ok {
+			w := mq.NewPublish()
+			w.SetTopicName("w")
+			w.SetQoS(uint8(v))
+			q.SetWill(w)
+			return true
+		}
+	case "PubQoS":
+		if q, ok := p.(*mq.Connect); ok {
+			q.SetWill(mq.Pub(uint8(v), "w", "p"))
+			return true
+		}
+	case "SetMaxQoS":
+		if q, ok := p.(*mq.ConnAck); ok {
+			q.SetMaxQoS(uint8(v))
+			return true
+		}
+	case "SetProtocolVersion":
+		if q, ok := p.(*mq.Connect); ok {
+			q.SetProtocolVersion(uint8(v))
+			return true
+		}
+	}
+	return false
+}
+
+// WildFor returns the names of WildNames that apply to a packet type.
+func WildFor(typ uint8) []string {
+	switch typ {
+	case model.PUBLISH:
+		return []string{"AddSubscriptionID", "SetQoS"}
+	case model.CONNECT:
+		return []string{"WillQoS", "PubQoS", "SetProtocolVersion"}
+	case model.CONNACK:
+		return []string{"SetMaxQoS"}
+	case model.SUBSCRIBE:
+		return []string{"SetSubscriptionID"}
+	}
+	return nil
+}
